@@ -3,7 +3,7 @@
 Theorems (props/C10.v): StringVal.String's escape loop is a per-byte map; its output is exactly one
 ClickHouse string literal decoding to the input, for every byte string; at statement level the token
 skeleton around a quoted value does not depend on the value; doLike's literal always closes; every SQL
-construction site of the reader (regenerated from the source into gen/GenSqlSites.v) formats only
+construction site of the reader (regenerated from the source into gen/GenC10Sites.v) formats only
 classified material.
 Correspondence (harness sqlinject): the real planners are driven with hostile strings in one position
 at a time; the SQL they hand to the session is lexed by model/ChLex.v inside Coq and compared with the
@@ -37,9 +37,8 @@ def pack(hexs):
     return "[" + ";".join(out) + "]"
 
 
-def segs(base_hex, sql_hex):
-    """the statement as pieces relative to its baseline: common prefix, differing middle, common suffix"""
-    b, q = bytes.fromhex(base_hex), bytes.fromhex(sql_hex)
+def common(b, q):
+    """lengths of the common prefix and (non-overlapping) common suffix of two byte strings"""
     n = min(len(b), len(q))
     p = 0
     while p < n and b[p] == q[p]:
@@ -47,26 +46,49 @@ def segs(base_hex, sql_hex):
     s = 0
     while s < n - p and b[len(b) - 1 - s] == q[len(q) - 1 - s]:
         s += 1
-    out = []
-    if p:
-        out.append("Copy 0 %d" % p)
-    if len(q) - p - s:
-        out.append("Lit %s" % pack(q[p:len(q) - s].hex()))
-    if s:
-        out.append("Copy %d %d" % (len(b) - s, s))
-    return "[" + ";".join(out) + "]"
+    return p, s
+
+
+MARGIN = 16
 
 
 def eval_cases(ck, name, bases, cases):
-    """-> dict id -> verdict code (non-zero only), or None"""
+    """-> dict id -> verdict code (non-zero only), or None.
+    Each statement is sent as the bytes between a prefix and a suffix it shares with its baseline; the cut
+    points are fixed per baseline (the shortest common prefix/suffix over this shard's cases, minus a margin),
+    Coq lexes prefix ++ middle ++ suffix (model/SqlCase.v case_toks)."""
+    bsql = [bytes.fromhex(b["sql"]) for b in bases]
+    cut = {}
+    for c in cases:
+        if c["base"] < 0:
+            continue
+        p, s = common(bsql[c["base"]], bytes.fromhex(c["sql"]))
+        op, os_ = cut.get(c["base"], (1 << 30, 1 << 30))
+        cut[c["base"]] = (min(op, p), min(os_, s))
+    rows = []
+    for i, b in enumerate(bases):
+        p, s = cut.get(i, (0, 0))
+        p, s = max(0, p - MARGIN), max(0, s - MARGIN)
+        cut[i] = (p, s)
+        rows.append("(%s, %s, %d, %d)" % (pack(b["marker"]), pack(b["sql"]), p, s))
+    rows.append("([0], [0], 0, 0)")  # baseline of the stand-alone escaper cases
+    raw_base = len(bases)
+    crow = []
+    for c in cases:
+        q = bytes.fromhex(c["sql"])
+        if c["base"] < 0:
+            bi, mid = raw_base, q
+        else:
+            bi = c["base"]
+            p, s = cut[bi]
+            mid = q[p:len(q) - s]
+            assert bsql[bi][:p] + mid + bsql[bi][len(bsql[bi]) - s:] == q
+        crow.append("{| c_id := %d%%Z; c_mode := %s; c_want := %s; c_base := %d%%Z; c_mid := %s |}" % (
+            c["id"], MODE[c["mode"]], pack(c["want"]), bi, pack(mid.hex())))
     txt = ("From Coq Require Import List ZArith Uint63.\nFrom Qryn Require Import model.SqlCase.\n"
            "Import ListNotations.\nOpen Scope uint63_scope.\n"
-           "Definition bases : list (list int * list int) := [\n  " +
-           ";\n  ".join("(%s, %s)" % (pack(b["marker"]), pack(b["sql"])) for b in bases) + "].\n"
-           "Definition cases : list case := [\n  " +
-           ";\n  ".join("{| c_id := %d%%Z; c_mode := %s; c_want := %s; c_base := %d%%Z; c_sql := %s |}" % (
-               c["id"], MODE[c["mode"]], pack(c["want"]), max(c["base"], 0),
-               segs(bases[c["base"]]["sql"] if c["base"] >= 0 else "", c["sql"])) for c in cases) + "].\n"
+           "Definition bases : list rbase := [\n  " + ";\n  ".join(rows) + "].\n"
+           "Definition cases : list case := [\n  " + ";\n  ".join(crow) + "].\n"
            "Definition R := Eval vm_compute in verdicts bases cases.\nPrint R.\n")
     rc, out = ck.coq_eval(name, txt)
     if rc != 0:
@@ -108,7 +130,7 @@ def run_correspondence(ck, known):
             return
         runs.append(("corpus", outp))
     outp = os.path.join(ck.work, "gen_out.jsonl")
-    rc, out = ck.go_run("sqlinject", ["--seed", ck.seed, "--n", ck.n(1500, 30000), "--out", outp])
+    rc, out = ck.go_run("sqlinject", ["--seed", ck.seed, "--n", ck.n(3000, 100000), "--out", outp])
     if rc != 0:
         ck.obligation("harness sqlinject ran", False, out[-1500:])
         return
@@ -130,7 +152,7 @@ def run_correspondence(ck, known):
             ck.violation({"property": "C10", "kind": "no baseline statement for this site (marker rejected or statement count differs)",
                           "case": describe(c)}, no_input=True)
         cases = [c for c in cases if c not in nobase]
-        shard = 400
+        shard = 3000
         for k in range(0, len(cases), shard):
             part = cases[k:k + shard]
             v, out = eval_cases(ck, "C10_%s_%d" % (tag, k // shard), bases, part)
@@ -182,12 +204,12 @@ def run_sites(ck):
     rc, out = vcheck.sh([gen], timeout=300, env=vcheck.go_env())
     ck.checker_cmds.append("translate/gen_sqlsites")
     ck.log(out.strip()[-300:])
-    if not ck.obligation("translator gen_sqlsites regenerated coq/gen/GenSqlSites.v from the source", rc == 0, out[-1500:]):
+    if not ck.obligation("translator gen_sqlsites regenerated coq/gen/GenC10Sites.v from the source", rc == 0, out[-1500:]):
         return
-    ok, out = ck.coq_make(["gen/GenSqlSites.vo"])
-    if not ck.obligation("gen/GenSqlSites.v compiles", ok, out[-1500:]):
+    ok, out = ck.coq_make(["gen/GenC10Sites.vo"])
+    if not ck.obligation("gen/GenC10Sites.v compiles", ok, out[-1500:]):
         return
-    txt = ("From Coq Require Import List String ZArith.\nFrom Qryn Require Import model.Quote model.Like model.SqlSites gen.GenSqlSites.\n"
+    txt = ("From Coq Require Import List String ZArith.\nFrom Qryn Require Import model.Quote model.Like model.SqlSites gen.GenC10Sites.\n"
            "Definition U := Eval vm_compute in unsafe_sites gen_sql_sites.\nPrint U.\n"
            "Definition T := Eval vm_compute in (List.length gen_sql_sites, alphabets_plain gen_ident_alphabets).\nPrint T.\n")
     rc, out = ck.coq_eval("C10_sites", txt)
@@ -197,7 +219,7 @@ def run_sites(ck):
         ck.obligation("site census evaluated inside Coq", False, out[-1500:])
         return
     bad = re.findall(r'\("([^"]+)", (\d+)(?:%Z)?\)', m.group(1))
-    meta = json.load(open(os.path.join(VERIF, "coq", "gen", "GenSqlSites.json")))
+    meta = json.load(open(os.path.join(VERIF, "coq", "gen", "GenC10Sites.json")))
     ck.extra["sql_sites"] = {"count": len(meta["sites"]), "excluded_functions": meta["excluded"],
                              "argument_classes": {}}
     for s in meta["sites"]:
@@ -218,7 +240,7 @@ def run_sites(ck):
         st = [s for s in meta["sites"] if s["file"] == f and str(s["line"]) == ln]
         ck.violation({"property": "C10", "kind": "SQL text is built from an argument of unknown provenance, or a quoted value is placed where a quote does not open a literal",
                       "site": st[0] if st else {"file": f, "line": ln}, "all_unsafe_sites": bad,
-                      "explanation": "model/SqlSites.v safe_site rejects this site of coq/gen/GenSqlSites.v (theorem all_sql_sites_classified no longer holds)"},
+                      "explanation": "model/SqlSites.v safe_site rejects this site of coq/gen/GenC10Sites.v (theorem all_sql_sites_classified no longer holds)"},
                      no_input=True)
 
 
